@@ -132,7 +132,12 @@ extern "C" int h_c08() {
     dump_f(f, "given");
     const int pre = fam == 1 ? __vp_cfg("pre") : 0, at = fam == 1 ? __vp_cfg("at") : 0;    // pre frames already stored; at < pre replaces one of them
     for (int k = 0; k < pre; ++k) c.frame(sym_frame(P, C, S, "init"));
-    if (fam == 0) c.frame(f); else c.frame(f, (size_t)at);
+    // rv: the frame arrives as a temporary that shares its handles with the caller's frame (a by-value getter, Frame(f));
+    //     rv = 2: a named shallow copy that is moved from
+    const int rv = __vp_cfg("rv");
+    if (rv == 0) { if (fam == 0) c.frame(f); else c.frame(f, (size_t)at); }
+    else if (rv == 1) { if (fam == 0) c.frame(Frame(f)); else c.frame(Frame(f), (size_t)at); }
+    else { Frame h(f); if (fam == 0) c.frame(std::move(h)); else c.frame(std::move(h), (size_t)at); }
     const int mut = __vp_cfg("mutator");
     if (mut == 0 && P) { f.points_nonConst().point_nonConst(0).x(__vp_sym_f32("m")); f.points_nonConst().point_nonConst(0).residual(__vp_sym_f32("m")); }
     else if (mut == 1) { Point q; q.name("zz"); q.y(__vp_sym_f32("m")); f.points_nonConst().point(q, 0); }
@@ -149,7 +154,8 @@ extern "C" int h_c08() {
     Frame f = sym_frame(P, C, S, "f");
     dump_f(f, "given");
     const int times = __vp_cfg("times");
-    for (int k = 0; k < times; ++k) c.frame(f);
+    const int rv2 = __vp_cfg("rv");
+    for (int k = 0; k < times; ++k) { if (rv2) c.frame(Frame(f)); else c.frame(f); }
     const int col = __vp_cfg("column");
     if (col == 1) c.point("newp"); else if (col == 2) c.analog("newa");
     else if (col == 3) {
